@@ -44,6 +44,9 @@ def number_case(draw):
         s = draw(digits)
     elif kind == 'dec':
         s = draw(short_digits) + '.' + draw(short_digits)
+        if draw(st.integers(0, 5)) == 0:
+            # the shortest spelling of an arbitrary double has up to 17 significant digits: all of them count
+            s = draw(st.sampled_from(['3.141592653589793', '1.0000000000000002', '0.30000000000000004', '2.718281828459045', '9007199254740.993', '0.1234567890123456789', '123456789.12345678', '1.7976931348623157']))
     elif kind == 'dotdec':
         s = '.' + draw(short_digits)
     elif kind == 'pct':
